@@ -282,7 +282,7 @@ func printerFprint(w io.Writer, n ast.Node) error {
 func constantStringVal(c *ssa.Const) string { return constant.StringVal(c.Value) }
 
 // vcText assembles the common part of every query of a VC.
-func (P *Program) vcText(vc *VC, nAsserts int) string {
+func (P *Program) vcText(vc *VC, nAsserts int, tail string) string {
 	var b bytes.Buffer
 	b.WriteString(preludeText)
 	b.WriteString(vc.Sorts.declText())
@@ -299,7 +299,7 @@ func (P *Program) vcText(vc *VC, nAsserts int) string {
 		body.WriteString(a)
 		body.WriteString(")\n")
 	}
-	bs := body.String()
+	bs := body.String() + tail
 	// optional axiom groups, included only when their symbols occur
 	if strings.Contains(bs, "elemOf") || strings.Contains(bs, "elList") || strings.Contains(bs, "elIdx") {
 		b.WriteString(listAxioms)
